@@ -104,7 +104,7 @@ theorem eval_doubleDecoding (d1 d2 dd : List DEntry) (w : Nat → Bool)
           cases i with
           | zero =>
             rw [decFn_cons_zero]
-            have := eval_ddEntry_go d2 w p .int0 r hr
+            have := eval_ddEntry_go d2 w p (.poly []) r hr
             simpa [DEntry.toPoly, evalPoly_nil] using this
           | succ k =>
             rw [decFn_cons_succ, ih rs hrs k]
